@@ -238,7 +238,12 @@ def run_inference(args):
             for c in d:
                 s.add(c)
             s.add(z3.Not(P if ans else z3.Not(P)))
-            results.append(dict(id=base + "/answer-sound", smt2=s.to_smt2().replace("(check-sat)", ""), text="_is_%s(%s) = %s is sound (%s)" % (prop, sig, ans, mode), meta=dict(kind=kind, mode=mode, sig=sig, prop=prop, answer=ans)))
+            # `finite = False` is never acted upon (the rewriter only tests `_is(...)` for truth and nothing negates
+            # _is_finite), so its soundness is outside the property: attempted, not claimed
+            # `_is_finite` answers never reach a fold: the only table rows keyed by a NUMERIC constant and "finite"
+            # are all-None, and nothing negates _is_finite - its soundness is outside the property: attempted, not claimed
+            claimed = prop != "finite"
+            results.append(dict(id=base + "/answer-sound", smt2=s.to_smt2().replace("(check-sat)", ""), text="_is_%s(%s) = %s is sound (%s)" % (prop, sig, ans, mode), claimed=claimed, meta=dict(kind=kind, mode=mode, sig=sig, prop=prop, answer=ans, typing=list(typing), dec=_ser_dec(po.w.dec))))
     except symrun.Unsupported as u:
         results.append(dict(id="C04/infer/_is_%s/%s/%s/engine-unsupported" % (prop, kind, mode), ok=None, text="unsupported: %s" % u, claimed=False))
     except Exception:
@@ -390,6 +395,7 @@ def build(tier, only=None):
         res += pool.map(_dispatch, shard_jobs + light, chunksize=1)
     stats = {}
     explored = {}
+    seen_ids = {}
     for what, key, results, npaths, dt in res:
         fnname = ("rewrite.Rewriter.%s" % key[0]) if what == "rule" else ("expr.Expr._is_%s" % key[3])
         rep.under_contract(fnname, "denotation preserved on every path" if what == "rule" else "answer sound for every kind case")
@@ -398,6 +404,14 @@ def build(tier, only=None):
         stats[fnname][1] += dt
         any_claimed = False
         for r in results:
+            if r["id"] in seen_ids:
+                if r.get("smt2") in seen_ids[r["id"]]:
+                    continue  # the same path reached twice (dead decisions)
+                # same visible decisions, different dead ones that left a hypothesis behind: keep both
+                seen_ids[r["id"]].append(r.get("smt2"))
+                r = dict(r, id=r["id"].rsplit("/", 1)[0] + " ~v%d/" % len(seen_ids[r["id"]]) + r["id"].rsplit("/", 1)[1])
+            else:
+                seen_ids[r["id"]] = [r.get("smt2")]
             claimed = r.get("claimed", True)
             if "smt2" in r:
                 o = core.smt(r["id"], PROP, r["smt2"], functions=(fnname,), text=r.get("text", ""), budget_s=60, meta=r.get("meta"), claimed=claimed)
@@ -541,6 +555,9 @@ def replay_rule(o):
 
         r = witness.replay(meta, o.model or {})
         info.update(r)
+        if meta.get("prop") and r.get("witness_kind"):
+            # inference findings are identified by (property asked, kind, class of the failing operands), not by path
+            info["witness_class"] = "_is_%s(%s) %s" % (meta["prop"], meta["kind"], r["witness_kind"])
     except Exception:
         info["replay_error"] = traceback.format_exc()[-1200:]
         info.setdefault("replayed", False)
